@@ -19,6 +19,9 @@ Values are ints or (nested) lists of ints. Node kinds:
           input; mode "drop" (false branch emits nothing) | "zero" (false branch emits the zeroed value)
   exec    schedule/transfer/execute job pipeline from /repo/tests/utils/workflow.py (RecoveryTranslator), output =
           lin(inputs) + k, ints only
+  loop    a loop sub-network built with RecoveryTranslator.get_input_loop / get_output_loop (real LoopCombinatorStep,
+          BaseLoopConditionalStep, LoopTerminationCombinator, BaseLoopOutputLastStep, ForwardTransformers) around a
+          `+ k` body: ins = [counter, limit], out = the last counter value (counter < limit initially)
 A node may carry "fail": {"tag": t} (tf only): the transformation raises on that tag (the step ends FAILED).
 
 `run_spec` returns, per run: the executor outcome, per-port {tag: value} maps read from `port.token_list`, the
@@ -67,6 +70,9 @@ def apply_fn(fn: str, k: int, vals: list) -> list:
         return [[vals[0], vals[1]]]
     if fn == "split":
         return [deep_map(vals[0], lambda x: x + 1), deep_sum(vals[0])]
+    if fn == "loop":
+        c, l = deep_sum(vals[0]), deep_sum(vals[1])
+        return [c + k * (-((c - l) // k)) if c < l and k > 0 else c]
     raise ValueError(fn)
 
 
@@ -93,7 +99,7 @@ def py_den(spec) -> dict[int, dict[str, Any]]:
     for n in spec["nodes"]:
         ins = [ports[p] for p in n["ins"]]
         kind = n["kind"]
-        if kind in ("tf", "cond", "exec"):
+        if kind in ("tf", "cond", "exec", "loop"):
             keys = set(ins[0])
             if any(set(i) != keys for i in ins[1:]):
                 raise IllFormed(f"node {n['id']}: input ports carry different tag sets")
@@ -109,6 +115,10 @@ def py_den(spec) -> dict[int, dict[str, Any]]:
                     if not all(isinstance(v, int) for v in vals):
                         raise IllFormed("exec on a list value")
                     ports[n["outs"][0]][tag] = apply_fn("lin", n.get("k", 0), vals)[0]
+                elif kind == "loop":
+                    if not all(isinstance(v, int) for v in vals) or not vals[0] < vals[1] or n["k"] < 1:
+                        raise IllFormed("loop needs ints, k >= 1 and at least one iteration")
+                    ports[n["outs"][0]][tag] = apply_fn("loop", n["k"], vals)[0]
                 else:
                     if pred_holds(n["m"], n["r"], vals[0]):
                         for o, v in zip(n["outs"], vals):
@@ -174,7 +184,7 @@ def py_den(spec) -> dict[int, dict[str, Any]]:
 # --------------------------------------------------------------------------------------------------
 # generator
 # --------------------------------------------------------------------------------------------------
-DEFAULT_FEATURES = {"tf": 5, "scatter": 3, "gather": 4, "dot": 2, "cart": 1, "cond": 2, "exec": 0}
+DEFAULT_FEATURES = {"tf": 5, "scatter": 3, "gather": 4, "dot": 2, "cart": 1, "cond": 2, "exec": 0, "loop": 0}
 
 
 def _type_list(t):
@@ -341,19 +351,100 @@ def _gen_once(rng, size, feat):
             shape = p["shape"] if mode == "zero" else p["shape"][:-1] + (new_level(levels.get(p["shape"][-1])),)
             m = rng.randint(2, 3)
             add("cond", ins, [new_port(ports[i]["type"], shape) for i in ins], m=m, r=rng.randrange(m), mode=mode)
-        elif kind == "exec":
-            ins = pick(lambda p: p["type"] == "I", n=rng.choice([1, 1, 2]), same_shape=True)
-            if ins is None or any(ports[i]["type"] != "I" for i in ins):
+        elif kind == "loop":
+            ins = pick(lambda p: p["type"] == "I")
+            if ins is None:
                 continue
-            add("exec", ins, [new_port("I", ports[ins[0]]["shape"])], k=rng.randint(0, 3))
+            p = ports[ins[0]]
+            lim = new_port("I", p["shape"])
+            add("tf", ins, [lim], fn="add", k=rng.randint(1, 5))        # limit = counter + m: at least one iteration
+            add("loop", [ins[0], lim], [new_port("I", p["shape"])], k=rng.randint(1, 3))
+        elif kind == "exec":
+            motif = rng.random()
+            if motif < 0.35:
+                # jobs complete in a schedule-dependent order: join the reordered port with its in-order sibling
+                ins = pick(lambda p: p["type"] == "I" and len(p["shape"]) >= 2)
+                if ins is None:
+                    continue
+                p = ports[ins[0]]
+                x = new_port("I", p["shape"])
+                add("exec", ins, [x], k=rng.randint(0, 3))
+                if rng.random() < 0.5:
+                    add("tf", [x, ins[0]], [new_port("I", p["shape"])], fn="lin", k=rng.randint(0, 3))
+                else:
+                    add("tf", [ins[0], x], [new_port(_type_list("I"), p["shape"])], fn="pair", k=0)
+            elif motif < 0.65:
+                # the canonical scatter -> job -> gather pipeline
+                ins = pick(lambda p: p["type"] == _type_list("I") and len(p["shape"]) < 3)
+                if ins is None:
+                    continue
+                p = ports[ins[0]]
+                size_port = new_port("I", p["shape"], role="size")
+                lv = new_level(size_port)
+                el = new_port("I", p["shape"] + (lv,))
+                add("scatter", ins, [el, size_port])
+                x = new_port("I", p["shape"] + (lv,))
+                add("exec", [el], [x], k=rng.randint(0, 3))
+                add("gather", [x, size_port], [new_port(_type_list("I"), p["shape"])], depth=1)
+            else:
+                ins = pick(lambda p: p["type"] == "I", n=rng.choice([1, 1, 2]), same_shape=True)
+                if ins is None or any(ports[i]["type"] != "I" for i in ins):
+                    continue
+                add("exec", ins, [new_port("I", ports[ins[0]]["shape"])], k=rng.randint(0, 3))
     spec["nports"] = len(ports)
     return spec
 
 
-def choose_failure(rng: random.Random, spec: dict) -> dict | None:
-    """copy of the spec in which one transformer raises on one of the tags it processes"""
+def _upstream_of_loops(spec: dict) -> set[int]:
+    """ids of the nodes from which some loop node is reachable"""
+    tainted_ports: set[int] = set()
+    out: set[int] = set()
+    for n in reversed(spec["nodes"]):
+        if n["kind"] == "loop" or any(p in tainted_ports for p in n["outs"]):
+            if n["kind"] != "loop":
+                out.add(n["id"])
+            tainted_ports.update(n["ins"])
+    return out
+
+
+def choose_failure(rng: random.Random, spec: dict, escape_prob: float = 0.3, loop_upstream_prob: float = 0.12,
+                   job_prob: float = 0.5) -> dict | None:
+    """copy of the spec with one injected failure:
+    * a transformer raises on one of the tags it processes (`Transformer.run` catches it: the step ends FAILED and the
+      failure travels as TerminationToken(FAILED)), or
+    * one job of a job pipeline returns a FAILED CommandOutput (`ExecuteStep.run` cancels its pending jobs), or
+    * (mode "escape") a scatter step is fed a non-list value through an inserted `sum` transformer: `ScatterStep.run`
+      does not catch the WorkflowDefinitionException, which reaches `StreamFlowExecutor._handle_exception` -> close()."""
     den = py_den(spec)
+    scatters = [n["id"] for n in spec["nodes"] if n["kind"] == "scatter" and den[n["ins"][0]]
+                and n["id"] not in _upstream_of_loops(spec)]
+    if scatters and rng.random() < escape_prob:
+        sid = rng.choice(scatters)
+        spec = json.loads(json.dumps(spec))
+        old_in = spec["nodes"][sid]["ins"][0]
+        newp = spec["nports"]
+        spec["nports"] += 1
+        nodes = spec["nodes"]
+        nodes.insert(sid, {"id": sid, "kind": "tf", "ins": [old_in], "outs": [newp], "fn": "sum", "k": 0, "fail": {"mode": "escape"}})
+        nodes[sid + 1]["ins"][0] = newp
+        for i, n in enumerate(nodes):
+            n["id"] = i
+        return spec
+    feeds = _upstream_of_loops(spec)
+    jobs = [(n["id"], tag) for n in spec["nodes"] if n["kind"] == "exec" and n["id"] not in feeds for tag in den[n["ins"][0]]]
+    if jobs and rng.random() < job_prob:
+        # one job of a schedule/transfer/execute pipeline fails (CommandOutput FAILED): ExecuteStep cancels its other jobs
+        nid, tag = rng.choice(jobs)
+        spec = json.loads(json.dumps(spec))
+        spec["nodes"][nid]["fail"] = {"job_tag": tag}
+        return spec
     cands = [(n["id"], tag) for n in spec["nodes"] if n["kind"] == "tf" for tag in den[n["ins"][0]]]
+    # a failure upstream of a loop input dead-locks the LoopCombinatorStep (known finding of C04, every occurrence costs
+    # the whole watchdog time): keep such failure points rare
+    feeds_loop = _upstream_of_loops(spec)
+    rare = [c for c in cands if c[0] in feeds_loop]
+    common = [c for c in cands if c[0] not in feeds_loop]
+    cands = rare if (rare and (not common or rng.random() < loop_upstream_prob)) else common
     if not cands:
         return None
     nid, tag = rng.choice(cands)
@@ -419,13 +510,26 @@ async def build(context, spec: dict, workdir: str):
                 step.add_input_port(f"x{j}", ports[p])
             for j, p in enumerate(n["outs"]):
                 step.add_output_port(f"x{j}", ports[p])
+        elif kind == "loop":
+            from tests.utils.workflow import RecoveryTranslator
+            before = set(workflow.steps)
+            ltr = RecoveryTranslator(workflow)
+            loop_in = ltr.get_input_loop(name, {"counter": ports[n["ins"][0]], "limit": ports[n["ins"][1]]},
+                                         'lambda x: x["counter"].value < x["limit"].value')
+            body = workflow.create_step(cls=GenTransformer, name=name + "/body", fn="add", k=n["k"], nin=1)
+            body.add_input_port("i0", loop_in["counter"])
+            body_out = workflow.create_port()
+            body.add_output_port("o0", body_out)
+            louts = ltr.get_output_loop(name, {"counter": body_out, "limit": loop_in["limit"]}, {"counter"})
+            fw = workflow.create_step(cls=GenTransformer, name=name + "/out", fn="add", k=0, nin=1)
+            fw.add_input_port("i0", louts["counter"])
+            fw.add_output_port("o0", ports[n["outs"][0]])
+            node_steps[n["id"]] = sorted(set(workflow.steps) - before)
+            continue
         elif kind == "exec":
             if translator is None:
                 translator = await _exec_translator(context, workflow, workdir)
-            expr = "0"
-            for j in range(len(n["ins"])):
-                expr = f"(({expr}) * 31 + x['i{j}'].value)"
-            command = f"lambda x: ('copy', 'primitive', {expr} + {n.get('k', 0)})"
+            command = "lambda x: ('copy', 'primitive', 0)"   # replaced below by GenCommand
             before = set(workflow.steps)
             step = translator.get_execute_pipeline(
                 command=command, deployment_names=[translator._sfv_deployment],
@@ -433,6 +537,9 @@ async def build(context, spec: dict, workdir: str):
                 outputs={}, step_name=name, workflow=workflow)
             from tests.utils.workflow import EvalCommandOutputProcessor
             step.add_output_port("o0", ports[n["outs"][0]], EvalCommandOutputProcessor("o0", workflow, "primitive"))
+            from sfv.rt import wfsteps
+            step.command = wfsteps.GenCommand(step, k=n.get("k", 0), nin=len(n["ins"]),
+                                              fail_tag=(n.get("fail") or {}).get("job_tag"))
             node_steps[n["id"]] = sorted(set(workflow.steps) - before)
             continue
         else:
@@ -484,7 +591,7 @@ async def _dump_db(context) -> dict:
     return out
 
 
-def run_spec(spec: dict, seed: int, workdir: str, timeout: float = 60.0, shuffle: bool = True) -> dict:
+def run_spec(spec: dict, seed: int, workdir: str, timeout: float = 60.0, shuffle: bool = True, settle: float = 2.0) -> dict:
     """one run of the spec on the real engine under the PRNG schedule `seed`"""
     os.makedirs(workdir, exist_ok=True)
     result: dict[str, Any] = {"seed": seed}
@@ -499,13 +606,39 @@ def run_spec(spec: dict, seed: int, workdir: str, timeout: float = 60.0, shuffle
         from streamflow.workflow.token import IterationTerminationToken, JobToken, TerminationToken
 
         _, _, _, tokval = _classes()
+        from sfv.rt import wfsteps
+        wfsteps.JOB_RNG = random.Random(seed * 7919 + 13)
+        wfsteps.JOB_JITTER = float(os.environ.get("SFV_JOB_JITTER", "0.03")) if shuffle else 0.0
         context = make_context(workdir)
         try:
             workflow, ports, node_steps = await build(context, spec, workdir)
-            executor = StreamFlowExecutor(workflow)
+            rec = {"cancel_called": False, "close_noop_with_unterminated": False}
+
+            class RecExecutor(StreamFlowExecutor):
+                """records which path the executor took (used to classify the known `_cancel` defect narrowly)"""
+
+                async def _cancel(self, tasks):
+                    rec["cancel_called"] = True
+                    await super()._cancel(tasks)
+
+                async def close(self):
+                    if self._closed and any(not st.terminated for st in self.workflow.steps.values()):
+                        rec["close_noop_with_unterminated"] = True
+                    await super().close()
+
+            executor = RecExecutor(workflow)
             me = asyncio.current_task()
-            run_task = asyncio.create_task(executor.run())
+            async def runner():
+                try:
+                    return await executor.run()
+                finally:
+                    # the very moment run() returns / raises: which steps are not terminated
+                    result.setdefault("unterminated_at_exit", sorted(n for n, st in workflow.steps.items() if not st.terminated))
+
+            run_task = asyncio.create_task(runner())
             done, _ = await asyncio.wait({run_task}, timeout=timeout)
+            if not done:
+                result["unterminated_at_exit"] = sorted(n for n, st in workflow.steps.items() if not st.terminated)
             if not done:
                 result["outcome"] = {"kind": "hang", "detail": f"executor.run() did not finish in {timeout}s"}
             elif run_task.cancelled():
@@ -514,15 +647,34 @@ def run_spec(spec: dict, seed: int, workdir: str, timeout: float = 60.0, shuffle
                 result["outcome"] = {"kind": "raise", "detail": type(run_task.exception()).__name__}
             else:
                 ret = run_task.result()
-                result["outcome"] = {"kind": "return", "keys": sorted(ret)}
-            # let cancelled / finishing tasks settle
+                result["outcome"] = {"kind": "return", "keys": sorted(ret), "ret": {k: _jsonable(v) for k, v in ret.items()}}
+            result["executor"] = dict(rec, closed=bool(executor._closed))
+            # state of the loop combinator steps (classification of the known loop hang)
+            from streamflow.workflow.step import LoopCombinatorStep
+            result["loop_combinators"] = {
+                name: {"terminated": bool(st.terminated),
+                       "checklist": {k: sorted(v) for k, v in st.iteration_termination_checklist.items()},
+                       "inputs": {pn: {"terminations": [Status(t.value).name for t in port.token_list if isinstance(t, TerminationToken)],
+                                       "ndata": sum(1 for t in port.token_list if not isinstance(t, (TerminationToken, IterationTerminationToken))),
+                                       "unread": (port.queues[posixpath.join(name, pn)].qsize()
+                                                  if posixpath.join(name, pn) in port.queues else len(port.token_list)),
+                                       "stream": [("T1" if t.value == Status.COMPLETED else ("T0" if t.value in (Status.FAILED, Status.CANCELLED) else "T2")) if isinstance(t, TerminationToken)
+                                                  else ("i" + t.tag if isinstance(t, IterationTerminationToken) else "d" + t.tag)
+                                                  for t in port.token_list]}
+                                  for pn, port in st.get_input_ports().items()}}
+                for name, st in workflow.steps.items() if isinstance(st, LoopCombinatorStep)}
+
+            # let finishing tasks settle (the last `_set_status` of a step is a database await served by a thread)
+            def workflow_tasks():
+                return [t for t in asyncio.all_tasks() if t is not me and not t.done() and t is not run_task
+                        and not _is_infrastructure(t)]
             for _ in range(30):
                 await asyncio.sleep(0)
-            await asyncio.sleep(0.01)
-            for _ in range(10):
-                await asyncio.sleep(0)
-            pend = [t for t in asyncio.all_tasks() if t is not me and not t.done() and t is not run_task]
-            result["pending"] = sorted(_task_label(t) for t in pend if not _is_infrastructure(t))
+            waited = 0.0
+            while workflow_tasks() and waited < settle:
+                await asyncio.sleep(0.01)
+                waited += 0.01
+            result["pending"] = sorted(_task_label(t) for t in workflow_tasks())
             result["steps"] = {name: {"status": Status(s.status).name, "terminated": bool(s.terminated)}
                                for name, s in sorted(workflow.steps.items())}
             result["node_steps"] = {str(k): v for k, v in node_steps.items()}
@@ -541,6 +693,10 @@ def run_spec(spec: dict, seed: int, workdir: str, timeout: float = 60.0, shuffle
                         idm[t.tag] = t.persistent_id
                 pmap[str(i)], term[str(i)], ids[str(i)] = m, tl, idm
             result["ports"], result["terminations"], result["token_ids"], result["duplicate_tags"] = pmap, term, ids, dup
+            result["data_after_termination"] = [
+                str(i) for i, port in enumerate(ports)
+                if any(isinstance(a, TerminationToken) and not isinstance(b, TerminationToken)
+                       for a, b in zip(port.token_list, port.token_list[1:]))]
             result["order"] = {str(i): [t.tag for t in port.token_list if not isinstance(t, TerminationToken)] for i, port in enumerate(ports)}
             result["port_ids"] = {str(i): port.persistent_id for i, port in enumerate(ports)}
             result["outputs"] = sorted(workflow.output_ports)
@@ -560,6 +716,16 @@ def run_spec(spec: dict, seed: int, workdir: str, timeout: float = 60.0, shuffle
     except Exception as e:  # noqa: BLE001
         result.setdefault("outcome", {"kind": "harness-error", "detail": f"{type(e).__name__}: {e}"})
     return result
+
+
+def _jsonable(v):
+    if isinstance(v, (int, str, float, bool)) or v is None:
+        return v
+    if isinstance(v, (list, tuple)):
+        return [_jsonable(x) for x in v]
+    if isinstance(v, dict):
+        return {str(k): _jsonable(x) for k, x in v.items()}
+    return repr(v)
 
 
 def _task_label(t: asyncio.Task) -> str:
